@@ -56,6 +56,7 @@ TRAILING = "posterior-field-cardinality-wrong-when-trailing-allele-masked"
 AFP_FAMILY = {"ACP", "AFP", "AOP", "AOPSUM"}
 EXTRA_PLOIDY = "info-afp-denominator-counts-ploidy-file-entries-not-in-output"
 PLOIDY_FILE_EXTRA_ENTRIES = True  # include the class 'ploidy file lists a sample that is not part of the run'
+EXTRA_PLOIDY_VALUE = 4
 N_SHARDS = 16
 
 
@@ -192,7 +193,7 @@ def build_case(seed, shard, dI, g):
             for s in names:
                 fh.write("%s\t%d\n" % (s, ploidy_of[s]))
             if c.extra_ploidy_entry:
-                fh.write("NOT_IN_THIS_RUN\t4\n")
+                fh.write("NOT_IN_THIS_RUN\t%d\n" % EXTRA_PLOIDY_VALUE)
     c.parents_file = os.path.join(c.root, "parents.txt")
     with open(c.parents_file, "w") as fh:
         for s in c.ped_samples:
@@ -677,12 +678,14 @@ def check_run(c, prog, kind, report, out, captured, col, replay):
             return txt, internal
 
         def check_sum(info_key, fmt_key, mech, combine, n_terms_tol):
+            """problems [(mech, msg)] of INFO <info_key> against the per-sample <fmt_key> vectors (text and captured)"""
+            probs = []
             got_txt = rec.info.get(info_key)
             if got_txt is None or got_txt is True:
-                return
+                return probs
             got = nums(got_txt.split(","))
             if len(got) != R:
-                return  # cardinality already reported
+                return probs  # cardinality already reported
             txt, internal = sample_vectors(fmt_key, R)
             for src, vecs, tol in (("FORMAT text", txt, 0.0005 * n_terms_tol + 0.0005), ("captured sample values", internal, 0.0005)):
                 if vecs is None:
@@ -695,27 +698,41 @@ def check_run(c, prog, kind, report, out, captured, col, replay):
                             continue
                         if got[a] is None and invalid:
                             continue
-                        viol(mech, "INFO %s[%d]=%s but sample %s values are %s (%s)" % (info_key, a, got[a], fmt_key, terms, src))
+                        probs.append((mech, "INFO %s[%d]=%s but sample %s values are %s (%s)" % (info_key, a, got[a], fmt_key, terms, src)))
                         break
                     w = combine(terms)
                     if got[a] is None or not close(got[a], w, tol):
-                        viol(mech, "INFO %s=%s; recomputed entry %d from %s = %.6g (terms %s, tolerance %.4g)" % (info_key, got_txt, a, src, w, terms, tol))
+                        probs.append((mech, "INFO %s=%s; recomputed entry %d from %s = %.6g (terms %s, tolerance %.4g)" % (info_key, got_txt, a, src, w, terms, tol)))
                         break
+            return probs
+
+        def afp_text_problems(tp):
+            """INFO AFP against INFO ACP / total ploidy (both from the text)"""
+            if "ACP" in rec.info and "AFP" in rec.info and tp:
+                a_ = nums(rec.info["ACP"].split(","))
+                f_ = nums(rec.info["AFP"].split(","))
+                if len(a_) == R and len(f_) == R:
+                    for i in range(R):
+                        if (a_[i] is None) != (f_[i] is None) or (a_[i] is not None and not close(f_[i], a_[i] / tp, 0.0005 / tp + 0.0005)):
+                            return [("info-afp-not-acp-over-total-ploidy", "INFO AFP=%s, INFO ACP=%s, total ploidy of the samples in the output %d" % (rec.info["AFP"], rec.info["ACP"], total_ploidy))]
+            return []
+
+        def afp_problems(tp):
+            return check_sum("AFP", "ACP", "info-afp-not-acp-over-total-ploidy", lambda t: sum(t) / tp if tp else 0.0, n_s / max(tp, 1)) + afp_text_problems(tp)
 
         n_s = len(header.samples)
-        check_sum("ACP", "ACP", "info-acp-not-sum-of-sample-acp", lambda t: sum(t), n_s)
-        check_sum("AFP", "ACP", "info-afp-not-acp-over-total-ploidy", lambda t: sum(t) / total_ploidy if total_ploidy else 0.0, n_s / max(total_ploidy, 1))
-        check_sum("AOPSUM", "AOP", "info-aopsum-not-sum-of-sample-aop", lambda t: sum(t), n_s)
-        check_sum("AOP", "AOP", "info-aop-not-complement-of-product", lambda t: 1.0 - math.prod(1.0 - x for x in t), n_s)
-        # INFO AFP from text INFO ACP
-        if "ACP" in rec.info and "AFP" in rec.info and total_ploidy:
-            a_ = nums(rec.info["ACP"].split(","))
-            f_ = nums(rec.info["AFP"].split(","))
-            if len(a_) == R and len(f_) == R:
-                for i in range(R):
-                    if (a_[i] is None) != (f_[i] is None) or (a_[i] is not None and not close(f_[i], a_[i] / total_ploidy, 0.0005 / total_ploidy + 0.0005)):
-                        viol("info-afp-not-acp-over-total-ploidy", "INFO AFP=%s, INFO ACP=%s, total ploidy %d" % (rec.info["AFP"], rec.info["ACP"], total_ploidy))
-                        break
+        probs = check_sum("ACP", "ACP", "info-acp-not-sum-of-sample-acp", lambda t: sum(t), n_s)
+        probs += check_sum("AOPSUM", "AOP", "info-aopsum-not-sum-of-sample-aop", lambda t: sum(t), n_s)
+        probs += check_sum("AOP", "AOP", "info-aop-not-complement-of-product", lambda t: 1.0 - math.prod(1.0 - x for x in t), n_s)
+        afp = afp_problems(total_ploidy)
+        if afp and c.extra_ploidy_entry and not afp_problems(total_ploidy + EXTRA_PLOIDY_VALUE):
+            # the value is ACP / (ploidy of the output samples + ploidy of the ploidy-file entry that is not part of the run)
+            afp = [(EXTRA_PLOIDY, "%s; it equals ACP / %d = (total ploidy + the %d of ploidy-file entry NOT_IN_THIS_RUN, which is not a sample of this run)"
+                    % (afp[0][1], total_ploidy + EXTRA_PLOIDY_VALUE, EXTRA_PLOIDY_VALUE))]
+        if c.extra_ploidy_entry:
+            col.count("records_ploidy_file_extra_entry")
+        for mech, msg in probs + afp[:1]:
+            viol(mech, msg)
         # sample ACP = ploidy * AFP
         if want_info & AFP_FAMILY or want_fmt & AFP_FAMILY:
             t_acp, i_acp = sample_vectors("ACP", R)
